@@ -12,7 +12,7 @@ PROPS_FILE = "C17/Props.v"
 SHARD = 40
 PER_CASE_TIMEOUT = 180
 RULE = ("one case = one classifier fitted once on a generated tiny problem (8-14 training instances, "
-        "12-24 time points, 2..4 classes, labels int 0..k-1 / non-contiguous negative ints / strings / "
+        "12-24 time points (BOSSEnsemble: 20-24 points with min_window = 18, see NOT_RUNNABLE), 2..4 classes, labels int 0..k-1 / non-contiguous negative ints / strings / "
         "numeric strings whose sorted order differs from first appearance, class sizes balanced or "
         "skewed, three noise levels, random_state over ints (and None for forests), y as array or "
         "Series), evaluated on 5 fresh instances: BOSSEnsemble, ContractableBOSS, IndividualBOSS, "
@@ -65,6 +65,12 @@ MODELLED = [
     "trees as 'continuous'; mixed types cannot be sorted by numpy)",
 ]
 NOT_RUNNABLE = [
+    "BOSSEnsemble on series shorter than 18 points (= max(word_lengths) + 2), or with a min_window "
+    "below that bound: not generated, because for a window w < 18 the ensemble may store a word "
+    "length larger than min(16, w - 2·norm), the one its member's SFA transformer was built with, and "
+    "SFA._create_word (an @njit function) then reads dft[i] / breakpoints[i] past the end of the "
+    "arrays - garbage under the real numba, IndexError under the harness's numba stub; an "
+    "environment-dependent artefact that says nothing about C17's sentences (notes/C17.md, O-1)",
     "TemporalDictionaryEnsemble, WEASEL: SFA(binning_method='information-gain') passes "
     "max_depth=np.log2(alphabet_size) (a float) to DecisionTreeClassifier; sklearn 1.7 parameter "
     "validation rejects it (and the Cython builder needs an int)",
@@ -89,6 +95,15 @@ def translate(repo):
 # case generation
 
 CLFS = ["boss", "cboss", "iboss", "muse", "colens", "tsf", "rise", "stsf"]
+# BOSSEnsemble problems are generated with series of at least this many points and the ensemble is
+# built with min_window = this bound, so that EVERY window w it tries gives the SFA transformer the
+# full word length: SFA.word_length = min(word_lengths[0] = 16, w - 2 [norm=True drops the first
+# coefficient pair]) = 16 iff w >= 18.  Below it BOSSEnsemble.fit may store, through
+# _set_word_len(best_word_len), a word length (a LABEL from [16, 14, 12, 10, 8]) that is larger than
+# what the member's transformer was built with, and SFA._create_word then indexes past the DFT row
+# and the breakpoint table (see notes/C17.md, observation O-1; outside property C17).  The driver
+# re-derives the bound from the class (word_lengths, norm_options) and refuses shorter problems.
+BOSS_MIN_SERIES = 18
 LABELSETS = {
     "int01": [0, 1, 2, 3],
     "intgap": [7, -3, 1000, 42],
@@ -121,7 +136,8 @@ def gen_cases(rng, tier):
             forest = name in ("tsf", "rise", "stsf", "tsfreg")
             c = {"kind": "clf", "clf": name, "seed": rng.randint(0, 10 ** 6), "k": k,
                  "labelset": rng.choice(sorted(LABELSETS)), "sizes": _sizes(rng, k, n),
-                 "n_test": 5, "m": rng.randint(18, 24) if forest else rng.randint(12, 16),
+                 "n_test": 5, "m": rng.randint(18, 24) if forest else
+                 rng.randint(BOSS_MIN_SERIES + 2, 24) if name == "boss" else rng.randint(12, 16),
                  "noise": rng.choice([0.3, 1.0, 2.5]),
                  "rs": rng.choice([0, 1, 7, 42, 123, None]) if forest else rng.choice([0, 1, 7, 42, 123]),
                  "ycont": rng.choice(["array", "series"]),
@@ -129,7 +145,7 @@ def gen_cases(rng, tier):
             if name == "colens":
                 c["members"] = rng.choice([["iboss", "tsf"], ["tsf", "iboss", "cboss"],
                                            ["muse", "iboss"], ["boss", "tsf"], ["rise", "tsf", "iboss"]])
-                c["m"] = rng.randint(18, 22)
+                c["m"] = rng.randint(BOSS_MIN_SERIES + 2, 24)
             if name == "tsfreg":
                 c["kind"] = "reg"
             cases.append(c)
@@ -259,10 +275,22 @@ def _ycont(y, how):
     return pd.Series(y) if how == "series" else np.array(y)
 
 
-def _make(name, rs):
+def _boss_min_window():
+    """smallest window for which every word-length label BOSSEnsemble may store fits the member's
+    SFA transformer: SFA.word_length = min(word_length, window_size - (2 if norm else 0))"""
+    from sktime.classification.dictionary_based._boss import BOSSEnsemble
+    probe = BOSSEnsemble()
+    return max(probe.word_lengths) + (2 if True in probe.norm_options else 0)
+
+
+def _make(name, rs, m=None):
     if name == "boss":
         from sktime.classification.dictionary_based._boss import BOSSEnsemble
-        return BOSSEnsemble(max_ensemble_size=3 + (rs or 0) % 3, random_state=rs)
+        mw = _boss_min_window()
+        if m is not None and m < mw:
+            raise _FitRefused("BOSSEnsemble: series of %d points, shorter than the %d points below which "
+                              "SFA._create_word indexes past its DFT buffer (not generated)" % (m, mw))
+        return BOSSEnsemble(max_ensemble_size=3 + (rs or 0) % 3, min_window=mw, random_state=rs)
     if name == "cboss":
         from sktime.classification.dictionary_based._cboss import ContractableBOSS
         return ContractableBOSS(n_parameter_samples=8, max_ensemble_size=4, random_state=rs)
@@ -380,14 +408,14 @@ def _run_clf(case):
                                                                     _get_column)
         mem = case["members"]
         Xtr, ytr, Xte, yte = _problem(case, ncols=len(mem))
-        clf = ColumnEnsembleClassifier([("m%d" % j, _make(n, (case["rs"] or 0) + j), [j])
+        clf = ColumnEnsembleClassifier([("m%d" % j, _make(n, (case["rs"] or 0) + j, case["m"]), [j])
                                         for j, n in enumerate(mem)])
         _fit(clf, Xtr, _ycont(ytr, case["ycont"]))
         kind = "rows"
         members = [np.asarray(e.predict_proba(_get_column(Xte, col))) for _, e, col in clf.estimators_]
     else:
         Xtr, ytr, Xte, yte = _problem(case)
-        clf = _make(name, case["rs"])
+        clf = _make(name, case["rs"], case["m"])
         _fit(clf, Xtr, _ycont(ytr, case["ycont"]))
         kind, members = _member_rows(name, clf, Xte)
     try:
